@@ -103,6 +103,7 @@ def gen_table(rng, max_n=40, nsids=None, axes_p=(0.65, 0.5), index_kinds=None, n
             tbl["index"] = {"kind": "range"}
     if n >= 2 and frac_p and rng.chance(frac_p):
         tbl["frac_ms"] = [rng.pick((0, 0, 250, 500, 750)) for _ in range(n)]  # sub-second sampling (exact in float64)
+        tbl["no_files"] = True  # a float time axis in a file does not round-trip sub-second instants to the nanosecond
     if n >= 2 and nat_p and rng.chance(nat_p):
         tbl["nat"] = sorted(rng.sample(range(n), rng.randint(1, min(2, n - 1))))  # a record without a clock value
         if tbl["index"]["kind"] == "datetime":
